@@ -1,6 +1,6 @@
 import BigtreeModel.Store
 import BigtreeModel.StorePath
-import BigtreeProofs.Lemmas.StorePathD
+import BigtreeProofs.Lemmas.StorePathE
 /-!
 # C03 — a Node's path identifies it: sibling names are unique, paths are exact
 
@@ -118,7 +118,16 @@ theorem find_full_path_path_name (s : Store) (hw : WF s) (hu : SibUnique s) (d :
     findFullPath s start (pathName s v) = some (some v) :=
   Store.findFullPath_pathName hw hu d start v hst hsep hn
 
+/-- … also with the leading separator omitted and with a trailing separator added -/
+theorem find_full_path_variants (s : Store) (hw : WF s) (hu : SibUnique s) (d : Char) (start v : Nat)
+    (hst : SameTree s start v) (hsep : sep s v = [d])
+    (hn : ∀ x ∈ pathNodes s v, s.name x ≠ [] ∧ d ∉ s.name x) :
+    findFullPath s start ((pathName s v).drop (sep s v).length) = some (some v) ∧
+    findFullPath s start (pathName s v ++ sep s v) = some (some v) :=
+  Store.findFullPath_variants hw hu d start v hst hsep hn
+
 example : findFullPath demo 3 (pathName demo 2) = some (some 2) := by decide
+example : findFullPath demo 0 ['a', '.', 'b', '.', 'a', '.'] = some (some 2) := by decide
 example : SameTree demo 3 2 ∧ sep demo 2 = ['.'] ∧ ∀ x ∈ pathNodes demo 2, demo.name x ≠ [] ∧ '.' ∉ demo.name x := by
   decide
 
